@@ -91,7 +91,7 @@ def alphabets(model, tier):
     if model == "metis":
         a["InitArgs"] = [dict(n=rat(0), C=rat(0), fc=fcr(9, 2)), dict(n=rat(0), C=rat(0), fc=fcr(5, 3))]
         a["FcVals"] = [fcr(5, 3), fcr(5, 2), fcr(9, 2)] + ([fcr(5, 4), fcr(9, 3)] if th else [])
-        a["WallVals"] = {-1, 0, 1, 2, 3} | ({5} if th else set())
+        a["WallVals"] = {-1, 0, 1, 2, 3, 7} | ({4, 5} if th else set())
     if model == "hata":
         a["FcVals"] = [fcr(28, 1), fcr(1, 3), fcr(149, 0), fcr(1501, 0)] + ([fcr(15, 1), fcr(15, 2), fcr(1, 2)] if th else [])
         a["HbsVals"] = [rat(100), rat(200), rat(29)] + ([rat(30), rat(201), rat(0)] if th else [])
@@ -106,8 +106,8 @@ def alphabets(model, tier):
     arr = []
     for s in sets:
         if model == "metis":
-            pats = [[0] * len(s), [(i * 2 + 1) % 4 for i in range(len(s))], [2] * len(s)]
-            for p in pats[: (3 if th or len(s) > 2 else 2)]:
+            pats = [[0] * len(s), [(i * 2 + 1) % 4 for i in range(len(s))], [2] * len(s), [5 * (i % 2) for i in range(len(s))]]
+            for p in pats[: (4 if th or len(s) > 2 else 2)]:
                 arr.append(dict(ks=s, ws=p))
         else:
             arr.append(dict(ks=s, ws=[0] * len(s)))
@@ -325,6 +325,51 @@ def variants(a, lists=False):
     return out
 
 
+def shapes(n):
+    """shapes a caller may hold n values in: row, column, and one true matrix if n factorises"""
+    out = [(1, n), (n, 1)]
+    for a in (2, 3, 5, 7, 11, 19):
+        if n % a == 0 and n // a > 1:
+            out.append((a, n // a))
+            break
+    return out
+
+
+def scalar_variants(d):
+    """other ways a caller may hold ONE number: Python int / numpy integer (whole numbers), np.float64, np.float32, 0-d array"""
+    out = [("np.float64", np.float64(d), 1.0), ("0-d array", np.array(float(d)), 1.0), ("np.float32", np.float32(d), 3e4)]
+    if float(d) == int(d) and abs(d) < 2 ** 31:
+        out += [("int", int(d), 1.0), ("np.int64", np.int64(d), 1.0)]
+    return out
+
+
+def any_shape(fn, args, kind0, x0, rel=False):
+    """AnyShapeElementwise: the array query is element-wise, so the same values held as a row, a column or a matrix
+    (every ndarray argument reshaped alike), or stacked twice under a broadcast wall vector, give the same elements in that shape"""
+    n = np.size(args[0])
+    cases = [(f"shape {sh}", [a.reshape(sh) if isinstance(a, np.ndarray) else a for a in args], sh, 1) for sh in shapes(n)]
+    if n > 1:  # distances as a 2 x n matrix (n x 2 transposed), the other array arguments broadcast along it
+        cases.append(("2 x n matrix, other arguments broadcast", [np.vstack([args[0], args[0]])] + list(args[1:]), (2, n), 2))
+        cases.append(("n x 2 matrix, other arguments as a column", [np.vstack([args[0], args[0]]).T.copy()] +
+                      [a.reshape(n, 1) if isinstance(a, np.ndarray) else a for a in args[1:]], (n, 2), -2))
+    for label, aa, sh, rep_ in cases:
+        k, x = pure_outcome(fn, *aa)
+        if k == "impure":
+            return f"{label}: {x}"
+        if k != kind0:
+            return f"{label}: {'raised ' + str(x) if k != 'val' else 'returned values'}, the 1-D query: {kind0}"
+        if k == "val":
+            w = np.asarray(x0, dtype=float)
+            w = w.reshape(sh) if rep_ == 1 else np.vstack([w, w]) if rep_ == 2 else np.vstack([w, w]).T
+            x = np.asarray(x, dtype=float)
+            tol = TOL * (np.abs(w) if rel else np.maximum(1.0, np.abs(w)))
+            if x.shape != w.shape:
+                return f"{label}: result has shape {x.shape}, expected {w.shape}"
+            if not np.all(np.abs(x - w) <= tol):
+                return f"{label}: elements differ from the 1-D query: {x.ravel()[:4].tolist()}.. vs {w.ravel()[:4].tolist()}.."
+    return None
+
+
 _SWEPT = set()
 
 
@@ -418,6 +463,17 @@ def run_query(model, o, q):
         if r is None and kind == "val":
             kl, xl = pure_outcome(lambda dd, ww: call_lin(model, o, dd, ww), d, w)
             r = xl if kl == "impure" else sweep(lambda dd, ww: call_lin(model, o, dd, ww), [d, w], kl, xl, rel=True, lists=lists)
+        if r is None:
+            r = any_shape(lambda dd, ww: call_dB(model, o, dd, ww), [d, w], kind, x)
+        if r is None and q.get("scalarw", -1) >= 0:
+            sw = int(q["scalarw"])
+            for label, f2 in [(f"scalar wall count {sw}", lambda dd: o.calc_path_loss_dB(dd, num_walls=sw)),
+                              (f"numpy integer wall count {sw}", lambda dd: o.calc_path_loss_dB(dd, num_walls=np.int64(sw)))] + (
+                    [("wall count omitted", lambda dd: o.calc_path_loss_dB(dd))] if sw == 0 else []):
+                k2, x2 = pure_outcome(f2, d)
+                if k2 == "impure" or k2 != kind or (k2 == "val" and not (np.shape(x2) == np.shape(x) and np.allclose(x2, x, rtol=0, atol=TOL))):
+                    r = f"{label} with the distance array: {k2} {x2!r}, with the wall array: {kind} {x!r}"
+                    break
         return ("array query, " + r) if r else None
     k, w = q["k"], q.get("w", 0)
     d = dist(k)
@@ -440,6 +496,20 @@ def run_query(model, o, q):
             friis = 20.0 * math.log10(4.0 * math.pi * (d * 1e3) * (o.fc * 1e6) / C_LIGHT)
             if not abs(float(x) - friis) <= fval(exp["tol"]):
                 return f"free space n=2 gives {x!r} dB, Friis 20log10(4 pi d f/c) = {friis!r} (more than 0.01 dB apart)"
+        if r is None and first_time(model, graph.key(q["pre"]), op, k, w, "scalar types"):
+            f0 = call_lin if lin else call_dB
+            for label, v, f in scalar_variants(d):
+                kv, xv = pure_outcome(lambda vv: f0(model, o, vv, w), v)
+                if kv == "val" and kind == "val" and np.ndim(xv) == 0 and \
+                        abs(float(xv) - float(x)) <= TOL * f * (abs(float(x)) if lin else max(1.0, abs(float(x)))):
+                    continue
+                if kv == kind and kind != "val":
+                    continue
+                if k == ZK and kv == "raisevalue" and kind in ("raise", "raisevalue"):
+                    continue
+                if k == ZK and kind == "raisevalue":
+                    continue  # (scalar zero under clamp: reported under its own finding above)
+                return f"distance as {label} ({v!r}): {kv} {xv!r}, as Python float: {kind} {x!r} (AnyScalarTypeSameValue)"
         if r is None:
             # the same query with the caller's one-element float64 array (unchanged afterwards, repeatable, same value)
             da = np.array([d])
@@ -469,10 +539,45 @@ def run_query(model, o, q):
     raise KeyError(op)
 
 
-def rel_predicates(model, o, walls=(0,), kmin=-4, kmax=3, per_decade=4, inverse=True, sweep_key=None):
+def doc_value(model, p, d, w=0):
+    """The documented formula of the model (class docstrings of pathloss.py) for parameters p in floating point (rel).
+    None where the documentation leaves the case open (Okumura-Hata 'large city' at exactly 300 MHz)."""
+    L = math.log10(d)
+    if model == "general":
+        return 10.0 * p["n"] * L + p["C"]
+    if model == "3gpp1":
+        return 128.1 + 37.6 * L
+    if model == "freespace":
+        return 10.0 * p["n"] * (L + math.log10(p["fc"] * 1e6) - 4.3779113907)
+    if model == "metis":
+        A, B, X = (18.7, 46.8, 0.0) if w == 0 else (36.8, 43.8, 5.0 * (w - 1))
+        return A * L + B + 20.0 * math.log10(p["fc"] / 1e3 / 5.0) + X
+    f, hb, hm, area = p["fc"], p["hbs"], p["hms"], p["area"]
+    lf = math.log10(f)
+    if area == "large city":
+        if f == 300:
+            return None
+        a = 3.2 * math.log10(11.75 * hm) ** 2 - 4.97 if f > 300 else 8.29 * math.log10(1.54 * hm) ** 2 - 1.10
+    else:
+        a = (1.1 * lf - 0.7) * hm - 1.56 * lf + 0.8
+    K = {"open": 4.78 * lf ** 2 - 18.33 * lf + 40.94, "suburban": 2.0 * math.log10(f / 28.0) ** 2 + 5.4}.get(area, 0.0)
+    return 69.55 + 26.16 * lf - 13.82 * math.log10(hb) - a + (44.9 - 6.55 * math.log10(hb)) * L - K
+
+
+def public_params(model, o, given=None):
+    """parameters for doc_value from the object's public attributes (general: the constructor arguments, given)"""
+    p = dict(given or {})
+    for k, attr in (("n", "n"), ("fc", "fc"), ("hbs", "hbs"), ("hms", "hms"), ("area", "area_type")):
+        if hasattr(o, attr) and k not in p:
+            p[k] = getattr(o, attr)
+    return p
+
+
+def rel_predicates(model, o, walls=(0,), kmin=-4, kmax=3, per_decade=4, inverse=True, sweep_key=None, params=None):
     """the laws of the property as relations, evaluated numerically on a distance grid (rel).
     Returns {predicate: None | description}."""
-    res = {"Monotone": None, "LinearIsDb": None, "InUnit": None, "PolicyArrayScalar": None, "InverseId": None, "QueryPure": None}
+    res = {"Monotone": None, "LinearIsDb": None, "InUnit": None, "PolicyArrayScalar": None, "InverseId": None, "QueryPure": None,
+           "DocValue": None, "FriisClose": None}
     grid_pos = np.array([10.0 ** (kmin + i / per_decade) for i in range((kmax - kmin) * per_decade + 1)])
     pol = o.handle_small_distances_bool is True
     for w in walls:
@@ -502,6 +607,15 @@ def rel_predicates(model, o, walls=(0,), kmin=-4, kmax=3, per_decade=4, inverse=
             elif pol:
                 res["PolicyArrayScalar"] = f"PLdB({d!r}) raised although small distances are to be clamped: {x}"
         vals = [(d, x) for d, (kind, x) in zip(grid, scal) if kind == "val"]
+        if params is not None:
+            for d0, x0 in [v for v in vals if v[1] > 1.0][::max(1, len(vals) // 4)]:
+                want = doc_value(model, params, float(d0), w)
+                if want is not None and not close(x0, want):
+                    res["DocValue"] = f"PLdB({d0!r}) = {x0!r} (walls {w}), the documented formula gives {want!r} for {params}"
+                if model == "freespace" and params.get("n") == 2:
+                    friis = 20.0 * math.log10(4.0 * math.pi * (float(d0) * 1e3) * (params["fc"] * 1e6) / C_LIGHT)
+                    if not abs(x0 - friis) <= 0.01:
+                        res["FriisClose"] = f"n = 2, fc = {params['fc']} MHz: PLdB({d0!r}) = {x0!r}, Friis gives {friis!r} (> 0.01 dB apart)"
         for (d0, x0), (d1, x1) in zip(vals, vals[1:]):
             if x1 < x0 - 1e-9:
                 res["Monotone"] = f"PLdB({d0!r}) = {x0!r} > PLdB({d1!r}) = {x1!r}"
@@ -552,11 +666,11 @@ def rel_predicates(model, o, walls=(0,), kmin=-4, kmax=3, per_decade=4, inverse=
     return res
 
 
-def shadow_predicates(model, o, walls=(0,), dets=None, slopes=None, nseeds=4, base_seed=1):
+def shadow_predicates(model, o, walls=(0,), dets=None, slopes=None, nseeds=4, base_seed=1, inverse=False):
     """Shadowing on, sigma > 0: the range law for EVERY draw, judged on seeded draws (np.random.seed) at distances
     close to the model's minimum distance, scalar and array, under the object's policy (rel).
     dets: {wall: {k: form}} exact deterministic losses from TLC (or None off the lattice), slopes: {wall: [p, q]}."""
-    res = {"InUnitEveryDraw": None, "PolicyEveryDraw": None, "NoiseBounded": None, "ShadowingIsOn": None}
+    res = {"InUnitEveryDraw": None, "PolicyEveryDraw": None, "NoiseBounded": None, "ShadowingIsOn": None, "InverseIgnoresShadow": None}
     sigma = float(o.sigma_shadow)
     pol = o.handle_small_distances_bool is True
     bound = 7.0 * sigma + 1e-9
@@ -592,6 +706,12 @@ def shadow_predicates(model, o, walls=(0,), dets=None, slopes=None, nseeds=4, ba
         else:
             pts = [(10.0 ** (k + i / 4.0), None) for k in range(-3, 3) for i in range(4)]
             near = pts[::2]
+        if inverse and dets and w == 0:  # the documented inverse ignores shadowing: exact and the same for every seed
+            for k, v in tab.items():
+                for sd in (base_seed, base_seed + 1):
+                    kz, z = pure_outcome(lambda: o.which_distance_dB(v), seed=sd)
+                    if kz != "val" or not close(z, dist(k), rel=True):
+                        res["InverseIgnoresShadow"] = f"which_distance_dB({v!r}) = {z!r} with shadowing on, expected {dist(k)!r}"
         grid = np.array([p[0] for p in pts])
         gdet = np.array([p[1] for p in pts]) if dets else None
         wa = np.full(grid.shape, w) if model == "metis" else None
@@ -601,6 +721,13 @@ def shadow_predicates(model, o, walls=(0,), dets=None, slopes=None, nseeds=4, ba
             kind, xa = pure_outcome(lambda dd, ww: call_dB(model, o, dd, ww), grid, wa, seed=seed)
             lin = pure_outcome(lambda dd, ww: call_lin(model, o, dd, ww), grid, wa, seed=seed) if kind == "val" else None
             judge(kind, xa, gdet, f"array of {len(grid)} distances, walls {w}, np.random.seed({seed})", lin)
+            if si == 0 and len(grid) % 2 == 0:  # the same distances as a matrix: one draw per element, same shape
+                g2 = grid.reshape(2, -1)
+                k2, x2 = pure_outcome(lambda dd, ww: call_dB(model, o, dd, ww), g2, None if wa is None else wa.reshape(2, -1), seed=seed)
+                if k2 == "val" and np.shape(x2) != g2.shape:
+                    res["InUnitEveryDraw"] = f"2 x {g2.shape[1]} distance matrix under shadowing: result of shape {np.shape(x2)}"
+                else:
+                    judge(k2, x2, None if gdet is None else gdet.reshape(2, -1), f"2 x {g2.shape[1]} distance matrix, walls {w}, np.random.seed({seed})")
             for j, (d, det) in enumerate(near):
                 sd = seed + 7 * j + 1
                 kind, x = pure_outcome(lambda: call_dB(model, o, float(d), w), seed=sd)
@@ -635,12 +762,16 @@ def run_rel(model, o, q):
         if q.get("random"):
             slopes = q["slope"] if isinstance(q["slope"], dict) else {"0": q["slope"][0]}
             res = shadow_predicates(model, o, walls=walls, dets=q["dets"] if q.get("exact") else None, slopes=slopes,
-                                    nseeds=4, base_seed=1 + (zlib.crc32(graph.key(q["pre"]).encode()) % 1000))
+                                    nseeds=4, base_seed=1 + (zlib.crc32(graph.key(q["pre"]).encode()) % 1000),
+                                    inverse="InverseIgnoresShadow" in q["req"])
             for name in q["req"]:
                 if res.get(name):
                     return f"(rel) {name}: {res[name]}"
             return None
-        res = rel_predicates(model, o, walls=walls, inverse="InverseId" in q["req"], sweep_key=(model, graph.key(q["pre"])))
+        pre = q["pre"]
+        given = {"n": fval(pre["n"]), "C": ev(pre["C"], model)} if model in ("general", "3gpp1") else {}
+        res = rel_predicates(model, o, walls=walls, inverse="InverseId" in q["req"], sweep_key=(model, graph.key(pre)),
+                             params=public_params(model, o, given))
         for name in q["req"]:
             if res.get(name):
                 return f"(rel) {name}: {res[name]}"
@@ -875,9 +1006,9 @@ def run_antenna(ctx, r):
             except ValueError:
                 ctx.ok(("ant", "bad", c["sectors"]))
     for s, cases in sect.items():
-        cases.sort(key=lambda c: c["theta"])
+        cases.sort(key=lambda c: fval(c["theta"]))
         o = A.AntGainBS3GPP25996(s)
-        th = np.array([float(c["theta"]) for c in cases])
+        th = np.array([fval(c["theta"]) for c in cases])
         kind, arr = pure_outcome(o.get_antenna_gain, th)
         kneg, arrneg = pure_outcome(o.get_antenna_gain, -th)
         if kind != "val" or kneg != "val":
@@ -888,7 +1019,7 @@ def run_antenna(ctx, r):
         sweeps = []
         for dt in INT_DTYPES:  # whole degrees in every integer dtype that can hold them (a subset of the angles for 8 bits)
             ii = np.iinfo(dt)
-            m = (th >= ii.min) & (th <= ii.max)
+            m = (th >= ii.min) & (th <= ii.max) & (th == np.round(th))
             if m.any():
                 sweeps.append((np.dtype(dt).name, th[m].astype(dt), wants[m], 1.0))
         sweeps += [(lab, v, wants, f) for lab, v, f in variants(th) if lab in ("float32", "strided view", "read-only")]
@@ -902,11 +1033,25 @@ def run_antenna(ctx, r):
                 ctx.violation(f"sector antenna ({s} sectors), angles as {lab} array: " + (str(xv) if kv != "val" else
                               f"gain at {v[j]!r} deg is {np.asarray(xv).ravel()[j]!r}, expected {wv[j]!r} (AnyDtypeSameValue)"),
                               {"antenna": cases[0], "how": lab, "sectors": s})
+        r2 = any_shape(o.get_antenna_gain, [th], "val", arr, rel=True)
+        if r2:
+            ctx.violation(f"sector antenna ({s} sectors), {len(th)} angles: {r2} (AnyShapeElementwise)", {"antenna": cases[0], "how": "shape"})
+        else:
+            ctx.ok(("ant", s, "shapes"))
+        odef = A.AntGainBS3GPP25996() if s == 3 else None  # the documented default: 3 sectors
         for i, c in enumerate(cases):
             want = 10.0 ** (fval(c["gain_dB"]) / 10.0)
-            for how, x in (("scalar", o.get_antenna_gain(float(c["theta"]))), ("int", o.get_antenna_gain(int(c["theta"]))), ("array", arr[i]), ("array of negated angles", arrneg[i])):
+            t = fval(c["theta"])
+            hows = [("scalar", o.get_antenna_gain(t)), ("array", arr[i]), ("array of negated angles", arrneg[i])]
+            if c["theta"][1] == 1:
+                hows.append(("int", o.get_antenna_gain(int(t))))
+            if odef is not None and i % 16 == 0:
+                hows.append(("default constructor", odef.get_antenna_gain(t)))
+            if i % 64 == 0:
+                hows += [(lab, o.get_antenna_gain(v)) for lab, v, f in scalar_variants(t) if f == 1.0]
+            for how, x in hows:
                 if close(x, want, rel=True):
-                    ctx.ok(("ant", s, c["theta"], how))
+                    ctx.ok(("ant", s, tuple(c["theta"]), how))
                 else:
                     ctx.violation(f"sector antenna ({s} sectors) gain at {c['theta']} deg ({how}) is {x!r}, expected "
                                   f"10^({fval(c['gain_dB'])}/10) = {want!r}", {"antenna": c, "how": how})
@@ -914,12 +1059,16 @@ def run_antenna(ctx, r):
         g = None if c["gain"] == "none" else fval(c["gain"])
         o = A.AntGainOmni() if g is None else A.AntGainOmni(g)
         want = 10.0 ** (fval(c["gain_dB"]) / 10.0)
-        th = np.array([float(t) for t in c["thetas"]])
+        th = np.array([float(t) for t in c["thetas"]] + [0.25, -90.37])
         kind, ga = pure_outcome(o.get_antenna_gain, th)
         if kind != "val":
             ctx.violation(f"omni antenna gain {g} dBi, float64 array of angles: {ga}", {"antenna": c})
             continue
-        xs = [o.get_antenna_gain(float(t)) for t in c["thetas"]] + list(np.asarray(ga).ravel())
+        xs = [o.get_antenna_gain(float(t)) for t in th] + list(np.asarray(ga).ravel())
+        r2 = any_shape(o.get_antenna_gain, [th], "val", ga, rel=True)
+        if r2:
+            ctx.violation(f"omni antenna gain {g} dBi: {r2} (AnyShapeElementwise)", {"antenna": c})
+            continue
         for lab, v, f in variants(th):
             kv, xv = pure_outcome(o.get_antenna_gain, v)
             if kv != "val" or np.shape(xv) != v.shape:
@@ -936,7 +1085,7 @@ def run_antenna(ctx, r):
 
 
 def ant_cfg(tier, dev=False, emit=True):
-    step = 1
+    step = 25  # hundredths of a degree: every quarter degree (plus the neighbours of the floor crossing)
     return tlc.cfg_text(constants={"Step": str(step), "DevNoFloor": tlc.tla(bool(dev)), "DoEmit": tlc.tla(bool(emit))},
                         invariants=["Symmetric", "MaxAtBoresight", "Floored", "FloorReached"])
 
@@ -998,7 +1147,7 @@ def run(ctx):
         for e in runs[m].emitted:
             a = e["op"] if e["kind"] == "set" else "Q" + e["op"]
             ctx.actions[a] = ctx.actions.get(a, 0) + 1
-        plan[m] = explore(ctx, m, runs[m], depth, 2000 if th else 100, 10 if th else 8, 20000 if th else 2000)
+        plan[m] = explore(ctx, m, runs[m], depth, 1000 if th else 60, 10 if th else 8, 10000 if th else 1500)
     ctx.require_actions(["Construct", "Plot", "SetPol", "SetShadow", "SetSigma", "SetN", "SetFc", "SetHbs", "SetHms", "SetArea", "QPLdB", "QPL", "QPLdBArr",
                          "QWhichDistDB", "QWhichDist", "QFriis", "QRel"])
     n = 0
